@@ -69,44 +69,6 @@ func isNestedPath(p string) bool { return strings.Contains(p, ".") }
 
 // equalUpToFieldOrder compares two values ignoring the order of document
 // fields (array order matters).
-func equalUpToFieldOrder(a, b interface{}) bool {
-	switch x := a.(type) {
-	case bson.D:
-		y, ok := b.(bson.D)
-		if !ok || len(x) != len(y) {
-			return false
-		}
-		for _, e := range x {
-			found := false
-			for _, f := range y {
-				if f.Key == e.Key {
-					if !equalUpToFieldOrder(e.Value, f.Value) {
-						return false
-					}
-					found = true
-					break
-				}
-			}
-			if !found {
-				return false
-			}
-		}
-		return true
-	case bson.A:
-		y, ok := b.(bson.A)
-		if !ok || len(x) != len(y) {
-			return false
-		}
-		for i := range x {
-			if !equalUpToFieldOrder(x[i], y[i]) {
-				return false
-			}
-		}
-		return true
-	}
-	return bytes.Equal(marshal(bson.D{{Key: "v", Value: a}}), marshal(bson.D{{Key: "v", Value: b}}))
-}
-
 func runC11Single(c bson.D, x *Ctx) error {
 	doc := asD(getD(c, "doc"))
 	op := asS(getD(c, "op"))
@@ -189,56 +151,6 @@ func TestProp_C11_single(t *testing.T) { propC11Single.Check(t) }
 // ---------------------------------------------------------------- driver level: idempotence, modified count, rejection as a whole
 
 var idempotentOps = []string{"$set", "$unset", "$min", "$max", "$addToSet", "$pull", "$pullAll"}
-
-func genUpdateDoc(t *rapid.T, cfg gen.Cfg, ops []string, maxOps int) bson.D {
-	n := rapid.IntRange(1, maxOps).Draw(t, "nops")
-	upd := bson.D{}
-	used := map[string]bool{}
-	var usedP []string
-	conflicts := func(p string) bool {
-		// MongoDB rejects updates whose paths are equal or prefix-related;
-		// lungo only notices when both operators are effective, so such
-		// updates are kept out (DESIGN.md 8.2)
-		for _, q := range usedP {
-			if p == q || strings.HasPrefix(p, q+".") || strings.HasPrefix(q, p+".") {
-				return true
-			}
-		}
-		return false
-	}
-	for i := 0; i < n; i++ {
-		op := rapid.SampledFrom(ops).Draw(t, "op")
-		if used[op] {
-			continue
-		}
-		used[op] = true
-		m := rapid.IntRange(1, 2).Draw(t, "npaths")
-		fields := bson.D{}
-		for j := 0; j < m; j++ {
-			p := cfg.PathFrom(t, gen.UPaths)
-			arg := cfg.UpdateArg(op).Draw(t, "arg")
-			if conflicts(p) {
-				continue
-			}
-			if op == "$rename" {
-				to, _ := arg.(string)
-				if conflicts(to) || p == to {
-					continue
-				}
-				usedP = append(usedP, to)
-			}
-			usedP = append(usedP, p)
-			fields = append(fields, bson.E{Key: p, Value: arg})
-		}
-		if len(fields) > 0 {
-			upd = append(upd, bson.E{Key: op, Value: fields})
-		}
-	}
-	if len(upd) == 0 {
-		upd = bson.D{{Key: "$set", Value: bson.D{{Key: "q", Value: int32(1)}}}}
-	}
-	return upd
-}
 
 func genC11Driver(t *rapid.T) bson.D {
 	cfg := gen.Wide
